@@ -9,6 +9,8 @@ pub enum Sel {
     Assign(String, usize),
     IfCond(String, usize),
     LetIfCond(String, usize),
+    /// scrut~<ident>#k: the scrutinee of the k-th `match` whose scrutinee mentions the identifier
+    Scrut(String, usize),
     Arg { recv: Option<String>, method: String, k: usize, i: usize },
 }
 
@@ -30,6 +32,10 @@ pub fn parse_sel(s: &str) -> Result<Sel, String> {
     if let Some(r) = s.strip_prefix("letifcond:") {
         let (n, k) = split_k(r);
         return Ok(Sel::LetIfCond(n, k));
+    }
+    if let Some(r) = s.strip_prefix("scrut~") {
+        let (n, k) = split_k(r);
+        return Ok(Sel::Scrut(n, k));
     }
     if let Some(r) = s.strip_prefix("ifcond~") {
         let (n, k) = split_k(r);
@@ -134,6 +140,15 @@ impl<'a, 'ast> Visit<'ast> for Finder<'a> {
         }
         syn::visit::visit_expr_if(self, i);
     }
+    fn visit_expr_match(&mut self, m: &'ast syn::ExprMatch) {
+        if let Sel::Scrut(id, _) = self.sel {
+            use quote::ToTokens;
+            if mentions_ident(m.expr.to_token_stream(), id) {
+                self.hits.push(((*m.expr).clone(), m.span().start().line));
+            }
+        }
+        syn::visit::visit_expr_match(self, m);
+    }
     fn visit_expr_method_call(&mut self, m: &'ast syn::ExprMethodCall) {
         if let Sel::Arg { recv: Some(recv), method, i, .. } = self.sel {
             if m.method == method.as_str() && last_ident(&m.receiver).as_deref() == Some(recv.as_str()) {
@@ -168,7 +183,7 @@ pub fn select(f: &FnInfo, sel: &Sel) -> Result<(syn::Expr, usize), String> {
     let mut fd = Finder { sel, hits: vec![] };
     fd.visit_block(&f.block);
     let k = match sel {
-        Sel::Let(_, k) | Sel::Assign(_, k) | Sel::IfCond(_, k) | Sel::LetIfCond(_, k) => *k,
+        Sel::Let(_, k) | Sel::Assign(_, k) | Sel::IfCond(_, k) | Sel::LetIfCond(_, k) | Sel::Scrut(_, k) => *k,
         Sel::Arg { k, .. } => *k,
     };
     fd.hits
